@@ -55,6 +55,9 @@ pub struct SimSpec {
 	pub kill_fail: Vec<u8>,
 	/// indices (0-based, global) of signal calls that fail
 	pub signal_fail: Vec<u8>,
+	/// install spawn hooks and error handlers through the async variants of the Job API
+	#[serde(default)]
+	pub async_api: bool,
 }
 
 impl SimSpec {
@@ -168,6 +171,23 @@ impl World {
 		self.0.lock().unwrap().log.clone()
 	}
 
+	/// Install the simulating spawn hook through the sync or the async API, as the spec says.
+	pub fn set_hook(&self, job: &watchexec_supervisor::job::Job, marker: Option<u32>) -> watchexec_supervisor::job::Ticket {
+		if self.0.lock().unwrap().spec.async_api {
+			job.set_spawn_async_hook(self.hook_async(marker))
+		} else {
+			job.set_spawn_hook(self.hook(marker))
+		}
+	}
+
+	pub fn set_error_handler(&self, job: &watchexec_supervisor::job::Job) -> watchexec_supervisor::job::Ticket {
+		if self.0.lock().unwrap().spec.async_api {
+			job.set_async_error_handler(self.error_handler_async())
+		} else {
+			job.set_error_handler(self.error_handler())
+		}
+	}
+
 	pub fn spawned(&self) -> usize {
 		self.0.lock().unwrap().children.len()
 	}
@@ -189,6 +209,27 @@ impl World {
 				marker,
 				idx: None,
 			});
+		}
+	}
+
+	/// The same hook through `set_spawn_async_hook`: the work is done when the closure is called, the
+	/// returned future is ready at once (so the schedule is that of the sync hook).
+	pub fn hook_async(
+		&self,
+		marker: Option<u32>,
+	) -> impl (Fn(&mut TokioCommandWrap, &JobTaskContext<'_>) -> Box<dyn std::future::Future<Output = ()> + Send + Sync>) + Send + Sync + 'static {
+		let f = self.hook(marker);
+		move |cmd, ctx| {
+			f(cmd, ctx);
+			Box::new(std::future::ready(()))
+		}
+	}
+
+	pub fn error_handler_async(&self) -> impl (Fn(watchexec_supervisor::errors::SyncIoError) -> Box<dyn std::future::Future<Output = ()> + Send + Sync>) + Send + Sync + 'static {
+		let f = self.error_handler();
+		move |err| {
+			f(err);
+			Box::new(std::future::ready(()))
 		}
 	}
 
